@@ -31,6 +31,14 @@ let rec parse = function
 
 let si x = string_of_int (int_of_n x)
 
+(* current_cost can wrap to just below 2^64: print through an unsigned int64 *)
+let su (x : n) : string =
+  let rec pos = function
+    | XH -> 1L
+    | XO q -> Int64.shift_left (pos q) 1
+    | XI q -> Int64.logor (Int64.shift_left (pos q) 1) 1L in
+  match x with N0 -> "0" | Npos p -> Printf.sprintf "%Lu" (pos p)
+
 (* clock-advancing iterations are printed with the tag "ic": which entries expire before they
    are reached depends on the map's enumeration order, so `check` does not diff those lists *)
 let show (o : op) = function
@@ -50,7 +58,7 @@ let show (o : op) = function
       ^ String.concat "," (List.map (fun (k, v, c, r) ->
             string_of_int k ^ ":" ^ string_of_int v ^ ":" ^ string_of_int c ^ ":"
             ^ (if r < 0 then "-" else string_of_int r)) l) ^ "]"
-  | RCost c -> "c " ^ si c
+  | RCost c -> "c " ^ su c
 
 let run_case (toks : string list) : string =
   match toks with
